@@ -38,11 +38,21 @@ func argClass(m *model.Set, x uint64) string {
 }
 
 func propC03(t *rapid.T) {
-	bs := gen.Bitmap(t, "S", gen.KindsValid, true)
-	f := live.DrawForm(t, "form")
-	lv := mustMake(t, bs, f)
+	var lv *live.Live
+	var desc string
+	var f live.Form
+	if rapid.IntRange(0, 2).Draw(t, "viaHistory") == 0 {
+		// a bitmap with a past: generated spec, then mutations / algebra / aggregates (representation depends on the history)
+		lv, desc = live.History(t, "S", true)
+		f = lv.Form
+		inst.Count("C03", "source:history")
+	} else {
+		bs := gen.Bitmap(t, "S", gen.KindsValid, true)
+		f = live.DrawForm(t, "form")
+		lv = mustMake(t, bs, f)
+		desc = fmt.Sprintf("%s as %s", bs, f)
+	}
 	b, m := lv.B, lv.Model
-	desc := fmt.Sprintf("%s as %s", bs, f)
 	fail := func(format string, a ...interface{}) {
 		t.Fatalf("%s\n  set=%s\n  [%s]", fmt.Sprintf(format, a...), m, desc)
 	}
